@@ -1084,6 +1084,10 @@ def proj_C17(lhs, o, t):
 def oracle_C17(lhs, o, t, om):
     if not is_portable(t): return None
     if t["align"] != 1: return f"portable type with ALIGN {t['align']}"
+    # a slice that the proved acceptance criterion accepts is a portable image (of some content) and must map at every address:
+    # the implementation refusing it — or dying on it — refuses a reference serialisation
+    if lhs[0] == "B" and om.get("cls") == "ok" and o["cls"] in ("err", "PANIC", "MEMFAULT"):
+        return f"a portable image that the acceptance criterion accepts is not mapped: {o['cls']} {o.get('kind', '')}@{o.get('pos', '')}"
     if lhs[0] == "E" and o["cls"] == "ok":
         p = probe_fields(o.get("p"))
         ser = om.get("ser")
